@@ -60,8 +60,19 @@ def rt_key(inv: str, rec: Dict[str, Any], enums: Dict[str, Dict[str, List[int]]]
     return key
 
 
+def has_empty_leaf(node: Dict[str, Any]) -> bool:
+    """An XML element without text and without children (how an empty string / byte array / literal text is written)."""
+    if not node["kids"]:
+        return node["text"]["x"] == "none"
+    return any(has_empty_leaf(k) for k in node["kids"])
+
+
 def mut_key(inv: str, rec: Dict[str, Any]) -> Dict[str, Any]:
     key: Dict[str, Any] = {"clause": inv, "fmt": rec["fmt"], "outcome": rec["outcome"]["o"]}
+    if inv == "Inv_AcceptsWellFormed" and rec["fmt"] == "xml" and rec["outcome"]["o"] == "rejected" and has_empty_leaf(rec["doc"]):
+        # a valid document that is refused and carries an empty-text element: the fingerprint of the "empty text" findings
+        key["features"] = "empty_leaf_text"
+        return key
     if rec["outcome"]["o"] == "exception":
         m = re.match(r"(\w+) in ([\w.]*):", rec["detail"])
         key["exception"] = m.group(1) if m else "?"
@@ -107,6 +118,9 @@ def main() -> int:
     # V
     nsl = sdk_tlc.MAX_PAR
     mres = m_future.result()  # a violated design-level invariant raises MachineryFailure here
+    if not ck.quick:
+        # two successive mutation actions (documents that no longer look like a serialization) on the parametric model
+        ck.model_check("MC_Sdk", "MC_Sdk_thorough2.cfg", "wire formats under two successive mutations", workers=sdk_tlc.MAX_PAR, timeout=3000)
     rt_future = pool.submit(sdk_tlc.validate, ck, "SdkTrace", "SdkTrace.cfg", rt, "V: serialized form and round trip of every instance", max(1, nsl // 2))
     v_mut, printed = sdk_tlc.validate(ck, "SdkMutTrace", "SdkMutTrace.cfg", mut, "V: outcome on every mutated document vs the reference verdict", max(1, nsl - nsl // 2))
     v_rt, _ = rt_future.result()
